@@ -169,6 +169,16 @@ def lastArrival (log : Log) (i e : Nat) : Nat :=
     | some (.arrive _ _ _) => max acc (timeAt log m)
     | _ => acc) 0
 
+/-- what one more position contributes to the time of the last data `recv` of caller `c` -/
+def dataStep (log : Log) (c : Nat) (acc m : Nat) : Nat :=
+  match evAt log m with
+  | some (.recv c' (.data _)) => if c' = c then max acc (timeAt log m) else acc
+  | _ => acc
+
+/-- time of the last `recv` of caller `c` that delivered data, at a position in (p, u); 0 if there is none -/
+def lastDataTime (log : Log) (c p u : Nat) : Nat :=
+  ((List.range u).filter (fun m => decide (p < m))).foldl (dataStep log c) 0
+
 /-- all requests of a call that were sent, each with the position of its send and the end of its window -/
 def allWindows (reqs : List Req) (ss : List Nat) (b : Nat) : List (Req × Nat × Nat) :=
   ((reqs.zip ss).zip (ss.drop 1 ++ [b])).map (fun x => (x.1.1, x.1.2, x.2))
